@@ -1451,6 +1451,10 @@ pub fn c18_scenarios(ns: &[u64]) -> Vec<Scn> {
                     ("unsub-side", vec![opd(AddStream, R0, R1)], vec![vec![op(Unsub, R1)]]),
                     ("convert", vec![opd(AddStream, R0, R1)], vec![vec![op(IntoSingle, R1), op(IntoMulti, R1)]]),
                     ("clone-drop", vec![opd(CloneH, R0, R1)], vec![vec![opd(CloneH, R1, 9), op(DropH, R1)]]),
+                    // the last receiver leaves: between the publication of the empty
+                    // stream list and the raising of the no-receiver flag
+                    ("last-receiver-drops", vec![], vec![vec![op(DropH, R0)]]),
+                    ("last-receiver-unsubscribes", vec![], vec![vec![op(Unsub, R0)]]),
                     (
                         "add+unsub",
                         vec![opd(CloneH, R0, R1), opd(AddStream, R0, R2)],
@@ -1459,6 +1463,9 @@ pub fn c18_scenarios(ns: &[u64]) -> Vec<Scn> {
                 ];
                 for (fname, pre, others) in fams {
                     for probe in ["send1", "send2", "recv"] {
+                        if probe == "recv" && fname.starts_with("last-receiver") {
+                            continue; // the prober would use the leaving handle
+                        }
                         let mut s = Scn::new(&name(&format!("c18-solo-vs-{}[{:?}]", fname, st), probe), cfg);
                         s.prefix = pre.clone();
                         if probe == "send2" {
@@ -1715,24 +1722,36 @@ pub fn fut_matrix_scenarios(ns: &[u64]) -> Vec<Scn> {
     out
 }
 
-fn push_matrix(t: &mut Vec<Task>, thorough: bool) {
+/// The role matrix at one of three depths. 0 (quick tiers): pairs c = 2,
+/// triples c = 1, N = 1. 1 (thorough tiers): pairs c = 3, triples c = 1, and
+/// all pairs again at N = 2 with c = 2. 2 (thorough tier of C06, whose
+/// quiescence oracle is the broadest net): pairs c = 4, triples c = 2, pairs
+/// at N = 2 with c = 3 - 3.4e8 schedules, 85 minutes on 16 cores, too much to
+/// repeat for each of the eleven properties that use the matrix.
+fn push_matrix_level(t: &mut Vec<Task>, level: u8) {
     for fl in [Flavour::B, Flavour::M] {
         for s in matrix_scenarios(fl, 1, 3) {
             let nt = s.threads.len();
-            let (c, sh) = match (nt, thorough) {
-                (2, false) => (2, 1),
-                (_, false) => (1, 1),
-                (2, true) => (4, 2),
-                (_, true) => (2, 4),
+            let (c, sh) = match (nt, level) {
+                (2, 0) => (2, 1),
+                (_, 0) => (1, 1),
+                (2, 1) => (3, 1),
+                (_, 1) => (1, 1),
+                (2, _) => (4, 2),
+                (_, _) => (2, 4),
             };
             t.push(task_sh(s, c, sh));
         }
-        if thorough {
+        if level >= 1 {
             for s in matrix_scenarios(fl, 2, 2) {
-                t.push(task_sh(s, 3, 2));
+                t.push(task_sh(s, if level == 1 { 2 } else { 3 }, if level == 1 { 1 } else { 2 }));
             }
         }
     }
+}
+
+fn push_matrix(t: &mut Vec<Task>, thorough: bool) {
+    push_matrix_level(t, thorough as u8)
 }
 
 /// Deviation bound and shard count by scenario size and tier.
@@ -1762,8 +1781,8 @@ fn policy(s: &Scn, thorough: bool) -> (u32, usize) {
         }
     } else {
         match (nt, long) {
-            (0..=2, false) => (6, 4),
-            (0..=2, true) => (4, 4),
+            (0..=2, false) => (5, 4),
+            (0..=2, true) => (3, 4),
             (3, false) => (3, 16),
             (3, true) => (2, 16),
             _ => (2, 16),
@@ -1809,7 +1828,7 @@ pub fn tasks(prop: &str, tier: Tier) -> Vec<Task> {
             // delivery, order, capacity and quiescence are judged in every
             // execution of the role matrix and of the structural scenarios too:
             // a change may break them only next to add_stream / a handle drop
-            push_matrix(&mut t, thorough);
+            push_matrix_level(&mut t, if thorough { if prop == "C06" { 2 } else { 1 } } else { 0 });
             push_all(&mut t, c11_scenarios(ns_q, false), thorough);
             push_all(&mut t, c12_scenarios(&[2]), thorough);
             push_all(&mut t, c10_scenarios(ns_q, false), thorough);
